@@ -70,7 +70,9 @@ RULE = ('random dispatcher-free (and some popargs/custom-dispatch) object trees 
 PLAIN_KEYS = ['k1', 'k2', 'ns.k3', 'Ns.K4']
 TOOL_KEYS = ['tools.p1.on', 'tools.p1.x', 'tools.p2.on', 'tools.p2.y', 'tools.p2.priority', 'tools.p1.z.w']
 RARE_KEYS = ['tools.staticdir.dir']
-GEN_KEYS = PLAIN_KEYS + TOOL_KEYS + RARE_KEYS + ['tools.staticdir.section']
+NS_KEYS = ['request.c08attr', 'response.headers.X-C08']      # consumed by the request / response namespaces
+ALL_TOOL_KEYS = ['tools.%s.%s' % (t, a) for t in ('p1', 'p2') for a in ('on', 'x', 'y', 'priority', 'z.w')]
+GEN_KEYS = PLAIN_KEYS + ALL_TOOL_KEYS + RARE_KEYS + NS_KEYS + ['tools.staticdir.section']
 PROBE_TOOLS = ['p1', 'p2']
 ON_VALUES = [True, True, True, False, 0, 1, '', 'yes', None]
 
@@ -120,6 +122,9 @@ def gen_conf(rng, prov, p=0.3, rare=0.03):
     for k in PLAIN_KEYS:
         if rng.random() < p:
             c[k] = prov
+    for k in NS_KEYS:
+        if rng.random() < p * 0.6:
+            c[k] = prov
     for k in TOOL_KEYS:
         if rng.random() < p * 0.8:
             if k.endswith('.on'):
@@ -144,6 +149,9 @@ def gen_config_case(rng, i):
         for name, m in nd['meth']:
             if rng.random() < (0.5 if name in ('index', 'default') else 0.35):
                 m['conf'] = gen_conf(rng, 'H:%d.%s' % (n, name))
+            if rng.random() < 0.08:
+                prov = 'T:%d.%s' % (n, name)
+                m['tooldeco'] = [rng.choice(PROBE_TOOLS), rng.choice([{}, {'x': prov}, {'y': prov, 'priority': 30}])]
     paths = [c02.gen_path(rng, spec) for _ in range(6)]
     # sections: prefixes of the generated paths, and names that must NOT apply
     names = ['/']
@@ -201,6 +209,7 @@ def run_config_case(case):
     ensure_tools()
     built = T.Built(case['tree'])
     saved = dict(cherrypy.config)
+    missing = object()
     try:
         if case.get('gini') and case['glob']:
             # the global config arrives as an INI file with a [global] section
@@ -224,6 +233,12 @@ def run_config_case(case):
             o['toolmap'] = {t: dict(tm[t]) for t in PROBE_TOOLS if t in tm}
             o['tools_ran'] = sorted((n, sorted(kw.items())) for n, kw in TOOL_JOURNAL)
             o['global_seen'] = {k: cherrypy.config[k] for k in GEN_KEYS if k in cherrypy.config}
+            attr = getattr(req, 'c08attr', missing) if req is not None else missing
+            o['request_attr'] = None if attr is missing else ['set', attr]
+            o['x_header'] = None
+            for hk, hv in o.get('headers', []):
+                if hk.lower() == 'x-c08':
+                    o['x_header'] = hv
             obs.append(o)
     finally:
         cherrypy.config.clear()
@@ -332,6 +347,22 @@ def oracle_config(built, case, o, req):
             diff = {k: (cfg.get(k), strip[0].get(k)) for k in set(cfg) | set(strip[0]) if cfg.get(k) != strip[0].get(k)}
             bad.append(('effective config of %r differs from the level-by-level merge: {key: (got, want)} = %s'
                         % (o['path_info'], diff), 'merge_mismatch'))
+    # the request / response namespaces consume the effective config
+    if o['status'] == 200:
+        want_attr = ['set', o['config']['request.c08attr']] if 'request.c08attr' in o['config'] else None
+        if o['request_attr'] != want_attr:
+            bad.append(('request.c08attr is %r although the effective config says %r'
+                        % (o['request_attr'], want_attr), 'request_namespace'))
+        want_h = o['config'].get('response.headers.X-C08')
+        got_h = o['x_header']
+        if got_h is not None:
+            try:
+                got_h = got_h.encode('latin-1').decode('utf-8')
+            except (UnicodeEncodeError, UnicodeDecodeError):
+                pass
+        if want_h != got_h and want_h != o['x_header']:
+            bad.append(('response header X-C08 is %r although the effective config says %r'
+                        % (o['x_header'], want_h), 'response_namespace'))
     # tools: run exactly when the effective config turns them on, with the merged arguments
     if o['status'] != 500 or o['ran']:
         want = []
@@ -447,7 +478,7 @@ def check_config_cases(ctx, cases, compare_model=True):
         for node, name, conf, f in built.config_by_decorator:
             if getattr(f, '_cp_config', None) != conf:
                 ctx.oracle_fail(dict(case, reqs=reqs[:1]),
-                                'the cherrypy.config(**%r) decorator left _cp_config = %r on handler %d.%s'
+                                'the handler decorators (cherrypy.config(**kw) / cherrypy.tools.<t>(**kw)) should leave _cp_config = %r but left %r on handler %d.%s'
                                 % (conf, getattr(f, '_cp_config', None), node, name), 'config_decorator')
         seen = [o['path_info'] or p for o, (p, m) in zip(obs, reqs)]
         maxsegs = max([len([s for s in p.split('/') if s]) for p in seen] + [0])
